@@ -160,6 +160,17 @@ def gen_args(rng, sig, valid):
     return args, kwargs
 
 
+def same(a, b):
+    """Equality for logged-vs-bound arguments; one-shot iterators (distinct objects per call) compare by kind only."""
+    if hasattr(a, "__next__") and hasattr(b, "__next__"):
+        return type(a) is type(b)
+    if isinstance(a, (list, tuple)) and isinstance(b, (list, tuple)) and len(a) == len(b):
+        return all(same(x, y) for x, y in zip(a, b))
+    if isinstance(a, dict) and isinstance(b, dict) and a.keys() == b.keys():
+        return all(same(a[k], b[k]) for k in a)
+    return a == b
+
+
 class Channel(object):
     """Side channel between the generated function body and the harness."""
 
@@ -186,7 +197,16 @@ class Channel(object):
         if self.plan == "raise_base":
             self.exc = KeyboardInterrupt("body interrupt")
             raise self.exc
-        self.result = ("R", sorted((k, repr(v)) for k, v in loc.items() if k not in ("self", "cls")))
+        def show(v):
+            # a one-shot iterator handed to the function is consumed HERE, by the function body: its content must still be there
+            if hasattr(v, "__next__"):
+                return "iterator:%r" % (list(v),)
+            if isinstance(v, (tuple, list)):
+                return "%s[%s]" % (type(v).__name__, ", ".join(show(x) for x in v))
+            if isinstance(v, dict):
+                return "dict{%s}" % ", ".join("%r: %s" % (k, show(x)) for k, x in v.items())
+            return repr(v)
+        self.result = ("R", sorted((k, show(v)) for k, v in loc.items() if k not in ("self", "cls")))
         return self.result
 
 
@@ -308,6 +328,11 @@ def one(seed, i, res, tape):
         chan_u.plan = chan_d.plan = plan
         pk[0] = bool(posonly_names & set(kwargs))
         import copy
+        if rng.random() < 0.15 and args:
+            # a one-shot iterator as argument: logging it must not consume it (deepcopy gives each side its own iterator)
+            args = list(args)
+            args[rng.randrange(len(args))] = iter([1, 2, 3])
+            res["counters"]["iterator_arguments"] = res["counters"].get("iterator_arguments", 0) + 1
         try:
             ru = und(*copy.deepcopy(args), **copy.deepcopy(kwargs))
             ou = ("ret", ru)
@@ -323,7 +348,7 @@ def one(seed, i, res, tape):
             od = ("typeerror", e) if chan_d.calls == 0 else ("raise", e)
         except BaseException as e:
             od = ("raise", e)
-        msgs = [e["m"] for e in tape.entries[before:] if e["k"] == "msg"]
+        msgs = [e["m"] for e in tape.entries[before:] if e["k"] == "msg" and e["m"].get("message_type") != "eliot:destination_failure"]
         ncalls += 1
         desc = "%s(%s) args=%r kwargs=%r plan=%s opts=%s" % (flavour, render_params(sig), args, kwargs, plan, opts)
         if od[0] == "raise" and od[1] is not chan_d.exc:
@@ -380,14 +405,14 @@ def one(seed, i, res, tape):
         for k in set(expected) | set(got):
             if k in META:
                 # parameter named like a reserved key: its value should be what Python bound
-                if k in expected and s.get(k) != expected[k] and not (isinstance(expected[k], tuple) and list(expected[k]) == s.get(k)):
+                if k in expected and not same(s.get(k), expected[k]):
                     problems.append(("startfield", k, "start message field %r is %r, Python bound %r: %s" % (k, s.get(k), expected[k], desc)))
                 continue
             if k not in got:
                 problems.append(("startfield", k, "start message lacks argument %r: %s" % (k, desc)))
             elif k not in expected:
                 problems.append(("startfield", k, "start message has %r=%r which is not a bound argument: %s" % (k, got[k], desc)))
-            elif got[k] != expected[k]:
+            elif not same(got[k], expected[k]):
                 problems.append(("startfield", k, "start message has %r=%r, Python bound %r: %s" % (k, got[k], expected[k], desc)))
         for k in expected:
             if k in META and k not in s:
@@ -451,14 +476,18 @@ def one(seed, i, res, tape):
 
 def run_case(spec):
     res = {"evals": 0, "nontrivial": [], "counters": {}, "violations": [], "sample": None, "sets": {"special_names_used": []}}
+    import io
+    from eliot import FileDestination
     tape = Tape()
-    rec = Recorder(tape, "rec")
-    add_destinations(rec)
+    rec = Recorder(tape, "rec", deep=False)
+    filedest = FileDestination(file=io.BytesIO())  # a real JSON-encoding destination sees every argument and result too
+    add_destinations(rec, filedest)
     try:
         for i in range(spec["lo"], spec["hi"]):
             one(spec["seed"], i, res, tape)
     finally:
         remove_destination(rec)
+        remove_destination(filedest)
     return res
 
 
